@@ -59,6 +59,7 @@ type connCase struct {
 	FetchMax    int      `json:"fetch_max"`
 	MetadataMax int      `json:"metadata_max"`
 	Leader      bool     `json:"leader"` // DialLeader (conn bound to t0/1) or plain Dial
+	Chunk       int      `json:"chunk"`  // >0: the broker delivers fetch responses in reads of at most this many bytes
 	Ops         []connOp `json:"ops"`
 }
 
@@ -193,9 +194,19 @@ func runConnRequests(tb ev.TB, c connCase) (labels []string, nontrivial bool) {
 	cl.CreateTopic("t1", 1)
 	var recs []refcodec.Record
 	for i := 0; i < 20; i++ {
-		recs = append(recs, refcodec.Record{Offset: int64(i), Timestamp: int64(1000 + i), Value: []byte(fmt.Sprintf("v%d", i))})
+		// lengths and deltas of 64 and more take two varint bytes
+		recs = append(recs, refcodec.Record{Offset: int64(i), Timestamp: int64(1000 + 70*i), Key: []byte(strings.Repeat("k", 60+i)), Value: []byte(fmt.Sprintf("v%d-%s", i, strings.Repeat("x", 190+i))),
+			Headers: []refcodec.Header{{Key: "h", Value: []byte(strings.Repeat("y", 62+i))}}})
 	}
-	cl.AppendBatches("t0", 1, refcodec.MakeBatchV2(recs, 0))
+	cl.AppendBatches("t0", 1, refcodec.MakeBatchV2(recs[:10], 0), refcodec.MakeBatchV2(recs[10:], 0))
+	if c.Chunk > 0 {
+		cl.SetHook(func(cl *fakecluster.Cluster, r *fakecluster.Request) *fakecluster.Action {
+			if r.ApiKey == 1 {
+				return &fakecluster.Action{Chunk: c.Chunk, Tag: "chunked"}
+			}
+			return nil
+		})
+	}
 	cl.SetVersions(0, 0, 0, int16(c.ProduceMax))
 	cl.SetVersions(0, 1, 0, int16(c.FetchMax))
 	cl.SetVersions(0, 3, 0, int16(c.MetadataMax))
@@ -222,6 +233,7 @@ func runConnRequests(tb ev.TB, c connCase) (labels []string, nontrivial bool) {
 	curOffset := int64(-2) // symbolic first offset
 	for oi, op := range c.Ops {
 		before := cl.Seq()
+		offsetBefore := curOffset
 		deadline := time.Duration(op.DeadlineMs) * time.Millisecond
 		if deadline <= 0 {
 			deadline = 2 * time.Second
@@ -251,6 +263,37 @@ func runConnRequests(tb ev.TB, c connCase) (labels []string, nontrivial bool) {
 			}
 		case "readBatch":
 			b := conn.ReadBatchWith(kafka.ReadBatchConfig{MinBytes: op.MinBytes, MaxBytes: op.MaxBytes, IsolationLevel: kafka.IsolationLevel(op.Isolation), MaxWait: time.Duration(op.MaxWaitMs) * time.Millisecond})
+			// the response side of the hand-written codec: what is decoded equals what the broker encoded
+			for {
+				m, err := b.ReadMessage()
+				if err != nil {
+					break
+				}
+				if m.Offset < 0 {
+					fail("conn-resp/fetch/offset", "op %d: ReadMessage returned offset %d", oi, m.Offset)
+					return
+				}
+				if m.Offset >= int64(len(recs)) {
+					curOffset = m.Offset + 1
+					continue // appended by an earlier write of this program (C05 compares those)
+				}
+				want := recs[m.Offset]
+				gotH := ""
+				if len(m.Headers) == 1 {
+					gotH = m.Headers[0].Key + "=" + string(m.Headers[0].Value)
+				}
+				wantH := "h=" + string(want.Headers[0].Value)
+				if c.FetchMax < 5 {
+					wantH = "" // fetch v2: the broker converts to message format 1, which has no headers
+				}
+				if string(m.Key) != string(want.Key) || string(m.Value) != string(want.Value) || m.Time.UnixMilli() != want.Timestamp || gotH != wantH {
+					fail("conn-resp/fetch/content", "op %d: the record decoded at offset %d (key %d bytes, value %d bytes, time %d ms, header %q) is not the record the broker encoded (key %d bytes, value %d bytes, time %d ms)%s",
+						oi, m.Offset, len(m.Key), len(m.Value), m.Time.UnixMilli(), gotH, len(want.Key), len(want.Value), want.Timestamp, map[bool]string{true: fmt.Sprintf("; response delivered in reads of %d bytes", c.Chunk), false: ""}[c.Chunk > 0])
+					return
+				}
+				curOffset = m.Offset + 1
+				lab["fetch_record_compared"] = true
+			}
 			opErr = b.Close()
 		case "setAcks":
 			if conn.SetRequiredAcks(op.Acks) == nil {
@@ -391,8 +434,8 @@ func runConnRequests(tb ev.TB, c connCase) (labels []string, nontrivial bool) {
 				fail(sig("fields"), "op %d: Fetch v%d for %q %v, want t0/1", oi, ex.Version, name, ps)
 				return
 			}
-			if curOffset >= 0 && bi(ps[0], "FetchOffset") != curOffset {
-				fail(sig("offset"), "op %d: Fetch v%d at offset %d, the Conn was positioned at %d", oi, ex.Version, bi(ps[0], "FetchOffset"), curOffset)
+			if offsetBefore >= 0 && bi(ps[0], "FetchOffset") != offsetBefore {
+				fail(sig("offset"), "op %d: Fetch v%d at offset %d, the Conn was positioned at %d", oi, ex.Version, bi(ps[0], "FetchOffset"), offsetBefore)
 				return
 			}
 			if bi(ps[0], "PartitionMaxBytes") < int64(op.MaxBytes) || bi(ps[0], "PartitionMaxBytes") > int64(op.MaxBytes)+allowance {
@@ -558,6 +601,7 @@ func TestConnRequests(t *testing.T) {
 			FetchMax:    rapid.SampledFrom([]int{2, 4, 5, 9, 10, 11}).Draw(t, "fetchMax"),
 			MetadataMax: rapid.SampledFrom([]int{1, 5, 6, 9}).Draw(t, "metadataMax"),
 			Leader:      rapid.IntRange(0, 3).Draw(t, "leader") != 0,
+			Chunk:       rapid.SampledFrom([]int{0, 0, 1, 2, 3, 5, 7, 64, 1000}).Draw(t, "chunk"),
 		}
 		kinds := []string{"apiVersions", "brokers", "controller", "readPartitions", "createTopics", "deleteTopics"}
 		if c.Leader {
